@@ -227,6 +227,10 @@ def replay_case(st, case_line, judge):
 
 
 DRIVERS = {
+    'convcfg_p0': {'src': 'drv_convcfg.cpp', 'flags': ['-DPART=0']},
+    'convcfg_p1': {'src': 'drv_convcfg.cpp', 'flags': ['-DPART=1']},
+    'convcfg_p2': {'src': 'drv_convcfg.cpp', 'flags': ['-DPART=2']},
+    'elastic_all': {'src': 'drv_elastic.cpp', 'flags': []},
     'text_all': {'src': 'drv_text.cpp', 'flags': []},
     'blocks_p0': {'src': 'drv_blocks.cpp', 'flags': ['-DPART=0']},
     'blocks_p1': {'src': 'drv_blocks.cpp', 'flags': ['-DPART=1']},
@@ -373,6 +377,27 @@ def blk(name, part, group, q, t, mode='rnd'):
 
 
 PLANS = {
+    'C15': {
+        'level': 'proof', 'coq': 'Properties_C15',
+        'rule': 'ordered (source, target) pairs: 22 posit->posit pairs (different nbits and es, identity pairs), 13 cfloat->cfloat pairs (different geometry and '
+                'sub/sup/sat flags), 32 fixpnt->fixpnt pairs (Modulo and Saturate; more/fewer integer and fraction bits), 18 integer->integer pairs, 6 posit->integer '
+                'and 6 integer->posit adapter pairs; every source encoding when the source has <= 12 bits, structured samples above. The target must hold the value '
+                'nearest to the source under its own rounding and range rule (identity when representable). non-trivial = all; distinct = distinct lines',
+        'assumptions': ['the sign of a zero is not required to survive a cfloat -> cfloat conversion', 'conversions through double and lns -> lns are not covered'],
+        'streams': [exh('convcfg_exh%d' % k, 'convcfg_p%d' % k, 'arith', shards=8) for k in range(3)] +
+                   [rnd('convcfg_rnd%d' % k, 'convcfg_p%d' % k, 'arith', 3000, 60000, shards=8) for k in range(3)],
+    },
+    'C14': {
+        'level': 'proof', 'coq': 'Properties_C14',
+        'rule': 'einteger<uint8_t|uint16_t|uint32_t>: operands of 1..12 limbs built limb by limb (limbs drawn from {0, 1, BASE-1, BASE/2, random}), every sign '
+                'combination, equal and negated pairs, + - * / % six comparisons, shifts by 0..3 limbs, and chains of 6 operations on an accumulator (growth and '
+                'shrinkage), every step judged against Z; edecimal: decimal strings of 1..40 digits in, decimal strings out, compared byte by byte with the '
+                'canonical expansion; erational: numerator/denominator pairs, results must be in lowest terms with positive denominator and zero = +0/1. '
+                'non-trivial = all; distinct = distinct lines',
+        'assumptions': ['division by zero is not judged'],
+        'streams': [{'name': 'elastic_rnd', 'driver': 'elastic_all', 'what': 'random operands and chains for einteger, edecimal, erational',
+                     'runs': {'quick': [dict(args=['--mode', 'rnd', '--count', '400'], shards=8)], 'thorough': [dict(args=['--mode', 'rnd', '--count', '10000'], shards=8)]}}],
+    },
     'C16': {
         'level': 'proof', 'coq': 'Properties_C16',
         'rule': 'every encoding of the small configurations (posit 4..12 bits, cfloat 8..12, fixpnt 4..12, integer 4..12) and structured samples of the '
